@@ -9,6 +9,8 @@ import (
 	"errors"
 	"fmt"
 	"math/rand"
+	"os"
+	"regexp"
 	"sort"
 	"strings"
 	"time"
@@ -48,9 +50,12 @@ func Main(c *run.Ctx) {
 	c.Floor("in-process chains driven by a scripted upstream in random batchings", total/8, 0)
 	c.Floor("metric pipelines", total/10, 0)
 	c.Floor("results spanning more than one upstream channel message", 5, 0)
+	c.Floor("in-process chains over malformed lines checked for series identity and batching invariance", total/200, 0)
 }
 
 func strp(s string) *string { return &s }
+
+var zeroN = regexp.MustCompile(`("n":|\bn=)\d+`)
 
 // genSplitLog: [sql stages]* splitter [go stages]*
 func genSplitLog(r *rand.Rand, db *logq.DB, o logq.GenOpts) *logq.LogQuery {
@@ -185,22 +190,47 @@ func Child(c *run.Ctx, name string) {
 		if r.Intn(10) == 0 {
 			o.MaxSamples = 250 // several channel messages of 100 entries
 		}
+		o.Malformed = (o.JSONLines || o.Logfmt) && gi%3 == 2 && r.Intn(3) == 0
 		db := logq.NewDB(r, o)
+		if gi%21 == 0 && (o.JSONLines || o.Logfmt) && len(db.Series) > 0 {
+			// one whole series whose numeric field is 0 on every line: its range aggregates are exactly 0, a value an
+			// enclosing vector aggregation has to count like any other
+			fp := db.Series[0].FP
+			for k := range db.Samples {
+				if db.Samples[k].FP == fp {
+					db.Samples[k].Line = zeroN.ReplaceAllString(db.Samples[k].Line, "${1}0")
+				}
+			}
+			c.Cover("databases", "a series whose numeric field is always 0", 1)
+		}
 		ch := db.Load(false)
 		metric := r.Intn(3) == 0
 		switch mon {
 		case 0: // split pipeline vs evaluator
 			lq := genSplitLog(r, db, o)
 			req := logq.Request{StartNs: start, EndNs: end, Step: 5 * time.Second, Limit: []int64{0, 0, 1, 5, 100, 1000}[r.Intn(6)], Forward: false}
+			zeroCase := gi%21 == 0 && (o.JSONLines || o.Logfmt) && len(db.Series) > 0
+			if zeroCase {
+				// the database has a series whose numeric field is always 0: a plain nested aggregation over everything,
+				// so that the zero inner values take part in the outer aggregation
+				metric = true
+				parser := "json"
+				if o.Logfmt {
+					parser = "logfmt"
+				}
+				lq = &logq.LogQuery{Matchers: []logq.Matcher{{Label: "env", Op: "!=", Val: "nomatch"}}, Stages: []logq.Stage{{Kind: parser}}}
+			}
 			if metric {
 				rng := []time.Duration{5 * time.Second, 10 * time.Second, time.Minute}[r.Intn(3)]
 				m := &logq.MetricQuery{Range: rng, Log: *lq, Fn: []string{"rate", "count_over_time", "bytes_rate", "bytes_over_time"}[r.Intn(4)]}
-				if (o.JSONLines || o.Logfmt) && r.Intn(2) == 0 {
+				if (o.JSONLines || o.Logfmt) && (r.Intn(2) == 0 || zeroCase) {
 					m.Fn = []string{"sum_over_time", "avg_over_time", "min_over_time", "max_over_time", "first_over_time", "last_over_time"}[r.Intn(6)]
 					m.Log.Stages = append(m.Log.Stages, logq.Stage{Kind: "unwrap", Val: "n"})
 					m.RangeGrp = &logq.Grouping{By: true, Labels: []string{"app", "lvl2"}[:1+r.Intn(2)], Suffix: r.Intn(2) == 0}
 				}
-				if r.Intn(2) == 0 {
+				// a vector aggregation over the range aggregation: the inner series reach it through the shared in-process
+				// aggregator, where an inner value of exactly 0 is a value like any other (more often over unwrapped values)
+				if r.Intn(2) == 0 || m.RangeGrp != nil && r.Intn(2) == 0 || zeroCase {
 					m.Agg = []string{"sum", "avg", "min", "max", "count"}[r.Intn(5)]
 					m.AggGrp = &logq.Grouping{By: r.Intn(2) == 0, Labels: []string{"app", "lvl2", "env"}[:1+r.Intn(3)], Suffix: r.Intn(2) == 0}
 					if r.Intn(4) == 0 {
@@ -236,6 +266,11 @@ func Child(c *run.Ctx, name string) {
 				if out != nil {
 					nout = len(out.Entries)
 				}
+			}
+			if os.Getenv("C09_DEBUG") != "" && gi%21 == 0 && metric {
+				f, _ := os.OpenFile(os.Getenv("C09_DEBUG"), os.O_APPEND|os.O_CREATE|os.O_WRONLY, 0644)
+				defer f.Close()
+				fmt.Fprintf(f, "C09DBG gi=%d decided=%v kind=%q detail=%.80q q=%s\n", gi, decided, kind, detail, req.QueryString())
 			}
 			if !decided {
 				note(c, detail)
@@ -372,6 +407,13 @@ func Child(c *run.Ctx, name string) {
 			var probe *logq.ErrProbe
 			if errors.As(err, &probe) || errors.As(err2, &probe) {
 				c.Cover("probes", probe.Why, 1)
+				if err == nil {
+					// what the stages make of a malformed line is not settled, but two things are whatever they make of
+					// it: entries with one fingerprint carry one label set (the fingerprint is the series identity every
+					// later stage and the response writer group by), and the result does not depend on how the upstream
+					// rows were cut into channel messages
+					structural(c, gi, db, rest, req, upEntries)
+				}
 				c.EndCase(gi)
 				continue
 			}
@@ -417,6 +459,44 @@ func Child(c *run.Ctx, name string) {
 					map[string]any{"case_index": gi, "monitor": "scripted-upstream", "request": req, "db": db, "batches": upstream.batches})
 			}
 			c.EndCase(gi)
+		}
+	}
+}
+
+func structural(c *run.Ctx, gi int, db *logq.DB, rest logq.LogQuery, req logq.Request, upEntries []logq.Entry) {
+	sort.SliceStable(upEntries, func(a, b int) bool { return upEntries[a].Ts > upEntries[b].Ts })
+	script, perr := logql_parser.Parse(rest.String())
+	if perr != nil {
+		return
+	}
+	var outs [][]string
+	for k := 0; k < 2; k++ {
+		upstream := &scripted{entries: upEntries, r: c.Rng(fmt.Sprintf("c09/batch/%d/%d", gi, k))}
+		proc, perr := internal_planner.Plan(script, upstream)
+		if perr != nil {
+			return
+		}
+		out := runChain(proc, &req)
+		if out.TimedOut || out.Err != nil {
+			return
+		}
+		byFP := map[uint64]string{}
+		for _, e := range out.Entries {
+			l := logq.CanonLabels(e.Labels)
+			if prev, ok := byFP[e.Fingerprint]; ok && prev != l {
+				c.Violation("upstream/one-fingerprint-two-label-sets/"+req.SigShape(), fmt.Sprintf("in-process chain for %s: entries with fingerprint %d carry the label sets %s and %s (line %q); grouping by series merges them",
+					rest.String(), e.Fingerprint, prev, l, clip(e.Message, 80)), map[string]any{"case_index": gi, "monitor": "scripted-upstream/structural", "request": req, "db": db})
+				return
+			}
+			byFP[e.Fingerprint] = l
+		}
+		outs = append(outs, outRows(out))
+	}
+	c.Floor("in-process chains over malformed lines checked for series identity and batching invariance", 0, 1)
+	if req.Limit == 0 {
+		if a, b := diffSorted(outs[0], outs[1]); len(a)+len(b) > 0 {
+			c.Violation("upstream/result-depends-on-batching/"+req.SigShape(), fmt.Sprintf("in-process chain for %s: two cuts of the same upstream rows into channel messages give different results; only first: %v; only second: %v",
+				rest.String(), first(a, 2), first(b, 2)), map[string]any{"case_index": gi, "monitor": "scripted-upstream/structural", "request": req, "db": db})
 		}
 	}
 }
